@@ -97,7 +97,7 @@ def validate_trace(events, out, label):
 
     def one(job):
         j, path, part = job
-        res = common.run_tlc('MatchTrace', TRACE_CFG, workers=1, env={'TRACE_FILE': path}, timeout=3000)
+        res = common.run_tlc('MatchTrace', TRACE_CFG, workers=1, env={'TRACE_FILE': path}, timeout=3000, jvm=['-Xss1g'])      # long texts recurse deeply
         return job, res
 
     bad = []
@@ -146,5 +146,44 @@ def derive_pairs(rng, alphabet, n, maxlen=14):
             # duplicate a literal piece after a wildcard: the classic overlap case
             i = rng.randrange(len(w))
             w = w + ['ELL'] + w[i:]
+        out.append((tuple(g), tuple(w)))
+    return out
+
+
+def derive_long_pairs(rng, n):
+    """long texts (20..60 tokens) whose wants carry 9..14 wildcards: properties that only show beyond small counts
+    (a ninth wildcard, a forty-first blank) are out of reach of the exhaustive spaces"""
+    out = []
+    for _ in range(n):
+        g = [rng.choice(['A', 'B', 'A', 'B', 'SP']) for _ in range(rng.randint(20, 60))]
+        w = list(g)
+        k = rng.randint(9, 14)
+        cuts = sorted(rng.sample(range(len(w)), min(k, len(w))), reverse=True)
+        for i in cuts:
+            j = min(len(w), i + rng.randint(0, 2))
+            w[i:j] = ['ELL']
+        if rng.random() < 0.3:
+            w[rng.randrange(len(w))] = rng.choice(['A', 'B'])       # a near miss
+        out.append((tuple(g), tuple(w)))
+    return out
+
+
+def derive_long_blank_pairs(rng, n):
+    """long texts with 45..70 blanks, the want with its blanks written differently / dropped (IGNORE_WHITESPACE, NORMALIZE_WHITESPACE)"""
+    out = []
+    for _ in range(n):
+        words = [rng.choice(['A', 'B', 'U', 'DOT']) for _ in range(rng.randint(46, 71))]
+        g, w = [], []
+        for x, t in enumerate(words):
+            g.append(t)
+            w.append(t)
+            if x < len(words) - 1:
+                g.append('SP')
+                r = rng.random()
+                if r < 0.4:
+                    w.append(rng.choice(['SP', 'NL', 'TAB']))
+                elif r < 0.6:
+                    w += ['SP', 'SP']
+                # else: no blank at all in the want
         out.append((tuple(g), tuple(w)))
     return out
